@@ -36,11 +36,19 @@ fn world_for(chain: &refmodel::chain::ChainBuilder, assign: &[usize]) -> World {
 
 /// `stale_tails`: every file additionally ends with a never-connected competitor block (with data) whose height is
 /// one above the file's highest active block - the losing block of a short fork at a file roll-over.
+/// File numbers used for the k-th file of a partition: k * stride. Strides collide in power-of-two sized tables and
+/// truncating casts (two files whose numbers differ by a multiple of 256 / 4096 / 65536 / 2^32).
+const STRIDES: [u64; 6] = [1, 256, 4096, 65_536, 1 << 32, (1 << 32) + 4096];
+
 fn world_with_stale_tails(chain: &refmodel::chain::ChainBuilder, assign: &[usize], stale_tails: bool) -> World {
+    world_numbered(chain, assign, stale_tails, 1)
+}
+
+fn world_numbered(chain: &refmodel::chain::ChainBuilder, assign: &[usize], stale_tails: bool, stride: u64) -> World {
     use refmodel::world::{HAVE_DATA, VALID_TRANSACTIONS};
     let mut w = World::new(chain.coin);
     for (h, b) in chain.blocks.iter().enumerate() {
-        w.add_block(assign[h] as u64, chain.first_height + h as u64, b);
+        w.add_block(assign[h] as u64 * stride, chain.first_height + h as u64, b);
     }
     if stale_tails {
         let files: BTreeSet<usize> = assign.iter().copied().collect();
@@ -49,7 +57,7 @@ fn world_with_stale_tails(chain: &refmodel::chain::ChainBuilder, assign: &[usize
             let parent = chain.blocks[maxh].hash();
             let txs = vec![refmodel::chain::coinbase(maxh as u64 + 1, 0xdead, vec![refmodel::chain::pay(250, 1)])];
             let b = refmodel::ser::Block::build(1, parent, 1_700_000_000, 0x1d00ffff, f as u32, txs);
-            w.add_block_status(f as u64, maxh as u64 + 1, &b, VALID_TRANSACTIONS | HAVE_DATA);
+            w.add_block_status(f as u64 * stride, maxh as u64 + 1, &b, VALID_TRANSACTIONS | HAVE_DATA);
         }
     }
     w
@@ -62,7 +70,7 @@ struct TraceVerdict {
 }
 
 /// Replay the shim log through the open-set automaton.
-fn judge_trace(log: &str, assign: &[usize], s: u64, e: u64) -> TraceVerdict {
+fn judge_trace(log: &str, assign: &[usize], s: u64, e: u64, stride: u64) -> TraceVerdict {
     let maxh: BTreeMap<usize, u64> = {
         let mut m = BTreeMap::new();
         for (h, f) in assign.iter().enumerate() {
@@ -73,7 +81,7 @@ fn judge_trace(log: &str, assign: &[usize], s: u64, e: u64) -> TraceVerdict {
     let file_of = |path: &str| -> Option<usize> {
         let name = path.rsplit('/').next()?;
         let num = name.strip_prefix("blk")?.strip_suffix(".dat")?;
-        num.parse::<usize>().ok()
+        num.parse::<u64>().ok().map(|n| (n / stride) as usize)
     };
     let mut open: BTreeSet<usize> = BTreeSet::new();
     let mut peak = 0usize;
@@ -177,16 +185,20 @@ pub fn run() -> Report {
     let chain = dependent_chain(btc, 0, n);
     let parts_list = partitions(n);
     let ranges: Vec<(Option<u64>, Option<u64>)> = vec![(None, None), (Some(2), None), (None, Some(3)), (Some(1), Some(4))];
-    let mut cases: Vec<(Vec<usize>, (Option<u64>, Option<u64>), bool)> = Vec::new();
+    let mut cases: Vec<(Vec<usize>, (Option<u64>, Option<u64>), bool, u64)> = Vec::new();
     for p in &parts_list {
         for r in &ranges {
-            cases.push((p.clone(), *r, false));
+            cases.push((p.clone(), *r, false, 1));
         }
         // the same partition with a stale block at the end of every file (whole range and one mid-file range)
-        cases.push((p.clone(), (None, None), true));
-        cases.push((p.clone(), (Some(2), None), true));
+        cases.push((p.clone(), (None, None), true, 1));
+        cases.push((p.clone(), (Some(2), None), true, 1));
+        // the same partition with file numbers k * stride
+        for st in STRIDES.iter().skip(1) {
+            cases.push((p.clone(), (None, None), false, *st));
+        }
     }
-    rep.rule = format!("ALL {} set partitions of heights 0..{} into blk files (disjoint, overlapping and interleaved spans) x 4 range shapes, plus every partition again with a never-connected stale block (with data) appended to every file one height above that file's highest active block: (1) the syscall trace of the real binary (open/close of blk files interleaved with per-height markers) is replayed through the open-set automaton of the statement and its peak compared with the model's overlap number; (2) black box: the run must succeed under RLIMIT_NOFILE = N1 + overlap - 1 with N1 calibrated on the single-file layout; plus disjoint layouts of 200 and 1200 one-block files under N1; non-trivial = distinct (partition, range) with >= 2 files", parts_list.len(), n - 1);
+    rep.rule = format!("ALL {} set partitions of heights 0..{} into blk files (disjoint, overlapping and interleaved spans) x 4 range shapes, plus every partition again with a never-connected stale block (with data) appended to every file one height above that file's highest active block, and with file numbers k*stride for strides 256, 4096, 65536, 2^32, 2^32+4096: (1) the syscall trace of the real binary (open/close of blk files interleaved with per-height markers) is replayed through the open-set automaton of the statement and its peak compared with the model's overlap number; (2) black box: the run must succeed under RLIMIT_NOFILE = N1 + overlap - 1 with N1 calibrated on the single-file layout; plus disjoint layouts of 200 and 1200 one-block files under N1; non-trivial = distinct (partition, range) with >= 2 files", parts_list.len(), n - 1);
     rep.bound = json!({"heights": n, "partitions": parts_list.len(), "ranges": ranges.len(), "large_layouts": [200, 1200]});
     rep.assumptions = vec!["'height yet to come' is read against the whole index (a file whose remaining blocks lie beyond --end may stay open until exit)".into()];
     let root = refmodel::world::scratch_root();
@@ -211,9 +223,12 @@ pub fn run() -> Report {
     let parts = par_fold(
         &cases,
         || Report::new("C17", "e3a"),
-        |w, _i, (assign, (s0, e0), stale), acc| {
+        |w, _i, (assign, (s0, e0), stale, stride), acc| {
             let wk = Worker::new(&root, w);
-            let world = world_with_stale_tails(&chain, assign, *stale);
+            let world = world_numbered(&chain, assign, *stale, *stride);
+            if *stride != 1 {
+                acc.count("partitions-with-strided-file-numbers", 1);
+            }
             if let Err(m) = wk.materialise(&world) {
                 return acc.machinery(m);
             }
@@ -225,7 +240,7 @@ pub fn run() -> Report {
             let nfiles = assign.iter().collect::<BTreeSet<_>>().len();
             acc.states += 1;
             if nfiles >= 2 {
-                acc.nontrivial.insert(h8(format!("{:?}{:?}{:?}{}", assign, s0, e0, stale).as_bytes()));
+                acc.nontrivial.insert(h8(format!("{:?}{:?}{:?}{}{}", assign, s0, e0, stale, stride).as_bytes()));
             }
             // oracle 1: trace
             let _ = std::fs::remove_file(wk.dir.join("shim.log"));
@@ -233,8 +248,10 @@ pub fn run() -> Report {
             let r = wk.run(&spec);
             acc.transitions += 1;
             let log = std::fs::read_to_string(wk.dir.join("shim.log")).unwrap_or_default();
-            let mut bad: Vec<Mismatch> = check_csvdump(&r, btc, &in_range(&all, s, e), s, e);
-            let tv = judge_trace(&log, assign, s, e);
+            // C17 judges descriptors only: the run must succeed; what it dumped is C01/C03/C04's business
+            let mut bad: Vec<Mismatch> = expect_success(&r);
+            let _ = &all;
+            let tv = judge_trace(&log, assign, s, e, *stride);
             bad.extend(tv.problems.clone());
             let mp = model_peak(assign, s, e);
             if bad.is_empty() && tv.peak != mp {
@@ -246,7 +263,7 @@ pub fn run() -> Report {
                 acc.sample(json!({"height_to_file": assign, "range": [s, e], "trace_peak": tv.peak, "model_overlap": mp, "trace_excerpt": log.lines().filter(|l| l.starts_with("T open") || l.starts_with("T close") || l.starts_with("T marker")).take(14).map(|l| l.replace(&wk.dir.display().to_string(), "")).collect::<Vec<_>>()}));
             }
             if let Some((sig, detail)) = bad.into_iter().next() {
-                acc.disagree(&format!("trace:{}", sig), format!("height->file {:?} stale-tails {} range {:?}..{:?}: {}", assign, stale, s0, e0, detail), replay_case(&world, &RunSpec::new("bitcoin", "csvdump").range(*s0, *e0), json!({"height_to_file": assign, "model_overlap": mp}), &r, &wk.dir));
+                acc.disagree(&format!("trace:{}", sig), format!("height->file {:?} stale-tails {} file-number-stride {} range {:?}..{:?}: {}", assign, stale, stride, s0, e0, detail), replay_case(&world, &RunSpec::new("bitcoin", "csvdump").range(*s0, *e0), json!({"height_to_file": assign, "model_overlap": mp}), &r, &wk.dir));
                 return;
             }
             // oracle 2: descriptor limit (whole range and one mid-file range per partition)
@@ -282,7 +299,7 @@ pub fn run() -> Report {
         let r: RunResult = wk.run(&spec);
         rep.transitions += 1;
         rep.count("large-layout-runs", 1);
-        let bad = check_csvdump(&r, btc, &big.mblocks(), 0, files as u64 - 1);
+        let bad = expect_success(&r);
         if let Some((sig, detail)) = bad.into_iter().next() {
             rep.disagree(&format!("rlimit:large-disjoint-layout:{}", sig), format!("{} one-block files under RLIMIT_NOFILE={}: {}", files, n1, detail.chars().take(300).collect::<String>()), json!({"kind": "e1-described", "layout": format!("{} one-block files blk00000..", files), "rlimit_nofile": n1}));
         }
@@ -290,7 +307,7 @@ pub fn run() -> Report {
         let r = wk.run(&trace_spec("csvdump", None, None, &wk));
         rep.transitions += 1;
         let log = std::fs::read_to_string(wk.dir.join("shim.log")).unwrap_or_default();
-        let tv = judge_trace(&log, &assign, 0, files as u64 - 1);
+        let tv = judge_trace(&log, &assign, 0, files as u64 - 1, 1);
         if !r.ok() || tv.peak != 1 || !tv.problems.is_empty() {
             rep.disagree("trace:large-disjoint-layout", format!("{} files: exit {:?} peak {} problems {:?}", files, r.code, tv.peak, tv.problems.first()), json!({"kind": "e1-described", "layout": format!("{} one-block files", files)}));
         }
